@@ -9,12 +9,13 @@ import (
 	"math"
 	"sort"
 	"strings"
+	"time"
 
+	. "gethverif/harness/hxlib"
 	"github.com/ethereum/go-ethereum/common"
 	"github.com/ethereum/go-ethereum/core/rawdb"
 	"github.com/ethereum/go-ethereum/ethdb"
 	"github.com/ethereum/go-ethereum/triedb/pathdb"
-	. "gethverif/harness/hxlib"
 )
 
 const clsPanic = 20
@@ -29,6 +30,7 @@ func cls(err error) int64 {
 		sub string
 		c   int64
 	}{
+		{"corrupted index block, invalid varint", 15},
 		{"corrupted index block, len", 1},
 		{"corrupted index block, no restart", 2},
 		{"truncated restarts", 3},
@@ -725,6 +727,48 @@ func runBadStore(meta []byte, blks SL, qs []uint64) Result {
 	return res
 }
 
+// kind 4: a (possibly corrupted) block under a writer
+func runBadWriter(blob []byte, max uint64, entries uint16, limit uint64, n int) Result {
+	var orc oracle
+	res := Result{Tags: []string{"bad-writer"}}
+	o := guard(func() Sx {
+		w, err := pathdb.VerifC19NewBlockWriter(bytes.Clone(blob), max, entries, 0, 0, limit)
+		if err != nil {
+			res.Tags = append(res.Tags, fmt.Sprintf("wopen%d", cls(err)))
+			return L(I(cls(err)))
+		}
+		out := SL{I(0), SL(summary(w))}
+		for i := 0; i < n; i++ {
+			var c int64
+			func() {
+				defer func() {
+					if recover() != nil {
+						c = clsPanic
+					}
+				}()
+				c = cls(w.Pop(w.Last()))
+			}()
+			if c != 0 {
+				res.Tags = append(res.Tags, fmt.Sprintf("wpop%d", c))
+				if c == clsPanic {
+					orc.failf("pop panicked on a writer opened over malformed block bytes")
+				}
+				out = append(out, L(I(c)))
+				break
+			}
+			out = append(out, SL(append([]Sx{I(0)}, summary(w)...)))
+		}
+		return out
+	})
+	if String(o) == "(14)" {
+		orc.failf("newBlockWriter panicked on malformed block bytes")
+	}
+	res.Obs = o
+	res.Oracle = orc.String()
+	res.NonTrivial = len(blob) >= 2
+	return res
+}
+
 func run(c Sx) Result {
 	l := AsList(c)
 	switch AsInt(l[0]) {
@@ -736,6 +780,8 @@ func run(c Sx) Result {
 		return runBadBlock(AsBytes(l[1]), asIDs(l[2]))
 	case 3:
 		return runBadStore(AsBytes(l[1]), AsList(l[2]), asIDs(l[3]))
+	case 4:
+		return runBadWriter(AsBytes(l[1]), AsU64(l[2]), uint16(AsU64(l[3])), AsU64(l[4]), AsInt(l[5]))
 	}
 	panic("hxlib: unknown case kind")
 }
@@ -1094,6 +1140,34 @@ func genBadBlock(r *Rng) Sx {
 	return L(I(2), B(blob), ids(qs))
 }
 
+// a corrupted block under a writer, with the descriptor of the uncorrupted block
+func genBadWriter(r *Rng) Sx {
+	for {
+		n := r.Range(1, 12)
+		if r.Chance(1, 4) {
+			n = r.Range(250, 530)
+		}
+		blob, l := goodBlock(r, n)
+		for i := r.Range(1, 2); i > 0; i-- {
+			blob = corrupt(r, blob)
+		}
+		max, entries := l[len(l)-1], uint16(len(l))
+		if r.Chance(1, 8) {
+			entries = uint16(r.Intn(600)) // a lying descriptor
+		}
+		// excluded shape (reported candidate finding): one restart section but a descriptor
+		// with entries%256 == 1, entries != 1: pop indexes restarts[-1]
+		if rs, _, err := pathdb.VerifC19ParseIndexBlock(bytes.Clone(blob)); err == nil && len(rs) == 1 && entries%256 == 1 && entries != 1 {
+			continue
+		}
+		limit := uint64(math.MaxUint64)
+		if r.Chance(1, 3) {
+			limit = pickQ(r, l)
+		}
+		return L(I(4), B(blob), U(max), U(uint64(entries)), U(limit), I(int64(r.Range(1, 6))))
+	}
+}
+
 func genBadStore(r *Rng) Sx {
 	// a well-formed two/three-block store built through the real writer, then corrupted
 	db := rawdb.NewMemoryDatabase()
@@ -1159,13 +1233,17 @@ func gen(r *Rng, tier string, emit func(Sx)) {
 	for i := 0; i < nBadStore; i++ {
 		emit(genBadStore(r))
 	}
+	for i := 0; i < nBad/2; i++ {
+		emit(genBadWriter(r))
+	}
 }
 
 func main() {
 	Main(Family{
-		ID: "C19",
-		Rule: "block sessions: random single/bulk appends (strictly ascending ids with 1..9-byte deltas, plus zero/out-of-order ids), single/bulk pops aimed at the 256-entry restart boundary, reopening from finish() bytes with and without a trimming limit, readGreaterThan/SeekGT+Next/full iteration on a reader over the bytes, byte dumps; index sessions over a memory store: writer sessions (filling several 4096-byte blocks), deleter sessions (popping across block boundaries, down to empty), limit-trimmed reopen, queries and store dumps after sessions; malformed stream: truncated/bit-flipped/continuation-byte/overflow/junk-extended blocks and random bytes through parseIndexBlock, parseIndex and the block reader, corrupted stores (metadata, dropped/swapped/corrupted blocks) through the index reader. Non-trivial: a session of >= 3 operations, a malformed blob of >= 2 bytes, a malformed store with >= 1 descriptor; distinct = distinct case line.",
-		Gen:  gen,
-		Run:  run,
+		ID:          "C19",
+		Rule:        "block sessions: random single/bulk appends (strictly ascending ids with 1..9-byte deltas, plus zero/out-of-order ids), single/bulk pops aimed at the 256-entry restart boundary, reopening from finish() bytes with and without a trimming limit, readGreaterThan/SeekGT+Next/full iteration on a reader over the bytes, byte dumps; index sessions over a memory store: writer sessions (filling several 4096-byte blocks), deleter sessions (popping across block boundaries, down to empty), limit-trimmed reopen, queries and store dumps after sessions; malformed stream: truncated/bit-flipped/continuation-byte/overflow/junk-extended blocks and random bytes through parseIndexBlock, parseIndex and the block reader, corrupted stores (metadata, dropped/swapped/corrupted blocks) through the index reader, corrupted blocks under a block writer (newBlockWriter with the original or a lying descriptor, with and without a trimming limit, then pops; one reported shape excluded). Non-trivial: a session of >= 3 operations, a malformed blob of >= 2 bytes, a malformed store with >= 1 descriptor; distinct = distinct case line.",
+		Gen:         gen,
+		Run:         run,
+		CaseTimeout: 20 * time.Second,
 	})
 }
